@@ -44,6 +44,27 @@ def mentions(e, names):
     return any(mentions(c, names) for c in e.get('c', [])) or any(mentions(e.get(x), names) for x in ('lo', 'hi', 'st'))
 
 
+def map_expr(x, fn):
+    """Bottom-up rewrite of every expression node (dicts with a 'k' field) inside statements/expressions."""
+    if isinstance(x, list):
+        return [map_expr(y, fn) for y in x]
+    if isinstance(x, dict):
+        y = {k: map_expr(v, fn) for k, v in x.items()}
+        return fn(y) if 'k' in y else y
+    return x
+
+
+def strip_intdiv(prog):
+    """Replace integer quotients `a / c` (c an integer literal) by `a - c`: simplify() treats integer division
+    as exact (known finding of C08), so programs with integer division form families of their own."""
+    def fn(e):
+        if e.get('k') == 'quot' and e['c'][1].get('k') == 'int':
+            return op('sum', e['c'][0], op('neg', e['c'][1]))
+        return e
+    for u in prog['units']:
+        u['body'] = map_expr(u['body'], fn)
+
+
 def has_pragma(prog, word):
     return any(s['s'] == 'raw' and word in s['text'] for u in prog['units'] for s in F._flat(u['body']))
 
@@ -99,6 +120,14 @@ class LoopGen(F.Gen):
         self.int_scalars = saved
         self.active_loops.pop()
         self.nconst += 1
+        if self.family == 'unroll-negpow':
+            if vals and min(vals) < 0:
+                t = rng.choice(['t1', 't2', 'k'])
+                body.append(assign(V(t), self.bounded(op('sum', op('pow', V(v), N(2)), V(t)))))
+        else:
+            # a negative value substituted for the DO variable under `**` is a class of its own (unroll-negpow)
+            body = map_expr(body, lambda e: op('prod', e['c'][0], e['c'][0])
+                            if e.get('k') == 'pow' and e['c'][0] == V(v) else e)
         out = self.pragma_line(toplevel) + [do_(v, N(lo), N(hi), body, None if st is None else N(st))]
         if self.family.endswith('loopvar') and toplevel and rng.random() < 0.8:
             # Fortran defines the value of the DO variable after the loop (also for zero-trip loops)
@@ -123,7 +152,9 @@ class LoopGen(F.Gen):
 
 def gen_general(rng, family, quickness=1):
     """One (prog, inputs) of the families built on general statement lists."""
-    feats = {'unroll': ('call', 'twod', 'select'),
+    feats = {'unroll': ('call', 'twod'),
+             'unroll-select': ('twod', 'select'),
+             'unroll-negpow': ('twod',),
              'unroll-exitcycle': ('exitcycle', 'twod'),
              'unroll-loopvar': ('twod',),
              'unroll-print': ('twod',),
@@ -369,6 +400,8 @@ class NestGen(F.Gen):
         rank = rng.choice([1, 1, 2])
         pool = list(self.D2 if rank == 2 else self.D1)
         E = rng.sample(pool, rng.randint(1, len(pool)))
+        if promote:
+            E = rng.sample(pool, len(pool))
         env = self.env_for(E, rank)
         kind = rng.choice(['full', 'const', 'sym'])
         if promote:
@@ -378,6 +411,11 @@ class NestGen(F.Gen):
         else:
             rngs = [self.range_for(E, d, kind) for d in range(rank)]
         nseg = rng.choice([2, 2, 3])
+        if promote:
+            # every segment works on its own arrays: only the scalar temporaries carry values across a
+            # fission point (an ARRAY written before and read after the pragma is the fission-autopromote class)
+            nseg = min(nseg, len(E))
+            segE = [[a] for a in E[:nseg]]
         collapse = rank == 2 and rng.random() < 0.5
         inner = []
         opts = []
@@ -387,10 +425,19 @@ class NestGen(F.Gen):
                 if promote and env['temps'] and rng.random() < 0.3:
                     o = (o + f" promote({rng.choice(env['temps'])})").strip()
                 inner.append(raw(('!$loki loop-fission ' + o).strip()))
+            if promote:
+                env['E'] = segE[sgi]
+                env['RO'] = [a for a in self.dims if a not in E]
             seg = self.ew_block(env, rng.randint(1, 2), 1, temps_ok=promote)
             if promote and sgi == 0 and not env['temps']:
                 seg = [assign(V('t1'), self.bounded(self.i_expr(2, env)))] + seg
                 env['temps'].append('t1')
+            if promote and sgi > 0:
+                a = segE[sgi][0]
+                t = rng.choice(env['temps'])
+                lhs = el(a, *[V(v) for v in env['idx'][a]])
+                seg.append(assign(lhs, op('sum', lhs, call('real', V(t))) if self.TYPE[a] == 'real'
+                                  else self.bounded(op('sum', lhs, V(t)))))
             inner += seg
         if not promote and rng.random() < 0.25:
             # fission point inside a conditional whose condition nothing in the loop changes
@@ -404,7 +451,16 @@ class NestGen(F.Gen):
         # the temporaries are dead after the loop: redefine before anything could read them
         body += [assign(V(t), N(0)) for t in env['temps']]
         prog = self.kernel(body)
-        prog['meta'] = {'family': fam}
+        prog['meta'] = {'family': fam, 'auto': 0 if fam == 'fission' else 1}
+        if promote and rng.random() < 0.4:
+            # explicit promote(..) lists on every pragma instead of the automatic detection
+            prog['meta']['auto'] = 0
+            seen = []
+            for s_ in inner:
+                if s_['s'] == 'assign' and s_['lhs']['k'] == 'var' and s_['lhs']['name'] not in seen:
+                    seen.append(s_['lhs']['name'])
+                if s_['s'] == 'raw' and seen:
+                    s_['text'] = re.sub(r'\s*promote\([^)]*\)', '', s_['text']) + f" promote({', '.join(seen)})"
         return prog
 
     # ---- interchange
@@ -497,8 +553,8 @@ def gen_nest(rng, family):
     return prog, g.inputs(prog, 3)
 
 
-C31_GENERAL = ('unroll', 'unroll-exitcycle', 'unroll-loopvar', 'unroll-print', 'split')
-C31_NEST = ('fusion', 'fusion-mismatch', 'fusion-collapse', 'fission', 'fission-promote',
+C31_GENERAL = ('unroll', 'unroll-select', 'unroll-negpow', 'unroll-exitcycle', 'unroll-loopvar', 'unroll-print', 'split')
+C31_NEST = ('fusion', 'fusion-mismatch', 'fusion-collapse', 'fission', 'fission-autopromote', 'fission-promote',
             'interchange', 'interchange-project', 'block')
 
 
@@ -537,7 +593,7 @@ def transform_c31(text, prog, workdir):
         elif fam.startswith('fusion'):
             do_loop_fusion(routine)
         elif fam.startswith('fission'):
-            do_loop_fission(routine, promote=True, warn_loop_carries=True)
+            do_loop_fission(routine, promote=bool(meta.get('auto', 1)), warn_loop_carries=True)
         elif fam.startswith('interchange'):
             do_loop_interchange(routine, project_bounds=bool(meta.get('project')))
         elif fam in ('split', 'block'):
@@ -835,6 +891,7 @@ class CPGen(LoopGen):
 C32_FAMILIES = {
     # family: (mode, features, unused)
     'cp/base': ('cp', ('twod',), False),
+    'cp/intdiv': ('cp', ('twod',), False),                 # integer division kept (simplify treats it as exact)
     'cp/call': ('cp', ('twod', 'call', 'fcall'), False),
     'cp/while': ('cp', ('twod', 'while'), False),
     'cp/select': ('cp', ('twod', 'select'), False),
@@ -844,6 +901,7 @@ C32_FAMILIES = {
     'cp-unroll/base': ('cp-unroll', ('twod',), False),
     'cp-dce/base': ('cp-dce', ('twod',), False),
     'dce/base': ('dce', ('twod', 'select', 'call', 'while'), False),
+    'dce/intdiv': ('dce', ('twod',), False),
     'vars-arrays/base': ('vars', ('twod', 'call', 'fcall', 'select'), True),      # remove_only_arrays=True
     'vars-all/base': ('vars', ('twod', 'call', 'fcall', 'select'), True),         # remove_only_arrays=False
     'args-manual/call': ('args-manual', ('twod', 'call', 'fcall'), True),
@@ -860,6 +918,8 @@ def gen_c32(rng, family):
     prog['meta'] = {'family': family, 'mode': mode, 'simplify': rng.choice([1, 1, 0]),
                     'only_arrays': 1 if '-arrays' in family else 0}
     prune_unreachable(prog)
+    if not family.endswith('/intdiv'):
+        strip_intdiv(prog)
     return prog, g.inputs(prog, 3)
 
 
